@@ -52,11 +52,13 @@ type vFollowGate struct {
 	holdResp   map[string]bool
 	respParked map[string]int
 	respTokens map[string]chan struct{}
+	// respHeld: goroutines of a replica that sit inside the response handler right now
+	respHeld map[string]int
 }
 
 func newVFollowGate() *vFollowGate {
 	g := &vFollowGate{arrivals: map[string]int{}, parked: map[string]int{}, tokens: map[string]chan struct{}{},
-		holdResp: map[string]bool{}, respParked: map[string]int{}, respTokens: map[string]chan struct{}{}}
+		holdResp: map[string]bool{}, respParked: map[string]int{}, respTokens: map[string]chan struct{}{}, respHeld: map[string]int{}}
 	for _, id := range vKitIDs {
 		g.tokens[id] = make(chan struct{})
 		g.respTokens[id] = make(chan struct{})
@@ -70,10 +72,16 @@ func (g *vFollowGate) hook(name, id string, stop <-chan struct{}) {
 		hold, ch := g.holdResp[id], g.respTokens[id]
 		if hold {
 			g.respParked[id]++
+			g.respHeld[id]++
+			// one response per request of the driver: later responses pass
+			g.holdResp[id] = false
 		}
 		g.mu.Unlock()
 		if hold && ch != nil {
 			<-ch
+			g.mu.Lock()
+			g.respHeld[id]--
+			g.mu.Unlock()
 		}
 		return
 	}
@@ -99,6 +107,12 @@ func (g *vFollowGate) arrived(id string) int {
 	g.mu.Lock()
 	defer g.mu.Unlock()
 	return g.arrivals[id]
+}
+
+func (g *vFollowGate) heldNow(id string) int {
+	g.mu.Lock()
+	defer g.mu.Unlock()
+	return g.respHeld[id]
 }
 
 func (g *vFollowGate) parkedNow(id string) int {
@@ -196,7 +210,8 @@ type vKit struct {
 	nacks    []int64
 	minISR   int
 	// minVia: "server" = clustering.min.insync.replicas of every server, "stream" = the stream's own
-	// override in its CreateStream config (the server setting stays at its default 1)
+	// override in its CreateStream config (the server setting stays at its default 1), "api" = the
+	// same override, the configuration built from a CreateStream request by the API's own translation
 	minVia string
 	// restartVia: "replay" = a restarted server replays the committed operations, "snapshot" = it is
 	// restored from a metadata snapshot of a live replica (when there is one)
@@ -210,6 +225,9 @@ type vKit struct {
 	lagMs     int
 	pending   map[string][]vRaftOp // ops committed but not yet applied by a lagging follower
 	msgSize   int64
+	// heldStop: the stop channel of the replication loop whose goroutine is held inside the
+	// response handler (FetchHold); closed = that loop has been replaced or stopped since
+	heldStop map[string]chan struct{}
 }
 
 type vRepRec struct {
@@ -249,6 +267,7 @@ func newVKit(t *testing.T, ns *gnatsd.Server, gate *vFollowGate, n int, minISR, 
 		srv: map[string]*Server{}, isr: map[string]bool{}, hwDisk: map[string]int64{},
 		lastLog: map[string][]vRepRec{}, lastGap: map[string]bool{}, lastHW: map[string]int64{}, lastIsr: map[string]map[string]int64{},
 		minISR: minISR, fetchMax: fetchMax, batch: batch, pending: map[string][]vRaftOp{},
+		heldStop: map[string]chan struct{}{},
 	}
 	nc, err := nats.Connect(k.url)
 	if err != nil {
@@ -309,7 +328,7 @@ func (k *vKit) newServer(id string) *Server {
 	config.NATS.Servers = []string{k.url}
 	config.Telemetry.Enabled = false
 	config.Clustering.MinISR = k.minISR
-	if k.minVia == "stream" {
+	if k.minVia == "stream" || k.minVia == "api" {
 		config.Clustering.MinISR = 1
 	}
 	config.Clustering.ReplicaMaxLagTime = 10 * time.Hour
@@ -376,6 +395,14 @@ func (k *vKit) create() {
 	var sc *proto.StreamConfig
 	if k.minVia == "stream" {
 		sc = &proto.StreamConfig{MinIsr: &proto.NullableInt32{Value: int32(k.minISR)}}
+	} else if k.minVia == "api" {
+		// the stream configuration as the API builds it from a CreateStream request (the real
+		// request-to-operation translation; the request carries the replication factor the way
+		// apiServer.CreateStream leaves it: 0 has become 1)
+		sc = getStreamConfig(&client.CreateStreamRequest{
+			Subject: k.subject, Name: k.stream, ReplicationFactor: int32(len(k.ids)),
+			MinIsr: &client.NullableInt32{Value: int32(k.minISR)},
+		})
 	}
 	op := k.commit(&proto.RaftLog{
 		Op: proto.Op_CREATE_STREAM,
@@ -417,7 +444,7 @@ func (k *vKit) waitParked() {
 			p.mu.RLock()
 			following := p.isFollowing
 			p.mu.RUnlock()
-			if following && k.gate.parkedNow(id) == 0 {
+			if following && k.gate.parkedNow(id) == 0 && !k.heldCurrent(id) {
 				ok = false
 			}
 		}
@@ -609,17 +636,135 @@ func (k *vKit) fetchLost(f string) string {
 	g.mu.Lock()
 	g.holdResp[f] = false
 	g.mu.Unlock()
-	if got {
-		// let the held handler run on: the partition is closed, it drops the response
-		select {
-		case g.respTokens[f] <- struct{}{}:
-		case <-time.After(time.Second):
-		}
-	} else if res == "" {
+	// (crash lets the held handler run on: the partition is closed, it drops the response)
+	if !got && res == "" {
 		res = "no-response"
 	}
 	k.settle()
 	return res
+}
+
+// heldCurrent: the replication loop that is running for replica id right now is the one
+// whose goroutine is held inside the response handler.
+func (k *vKit) heldCurrent(id string) bool {
+	stop, ok := k.heldStop[id]
+	if !ok || k.gate.heldNow(id) == 0 {
+		return false
+	}
+	select {
+	case <-stop:
+		return false
+	default:
+		return true
+	}
+}
+
+// fetchHold: follower f sends its replication request, the leader handles it and answers; the
+// response has reached f's process and is not acted upon yet (the goroutine is held at the
+// entry of the response handler) until a Deliver step - whatever happens to f in between.
+func (k *vKit) fetchHold(f string) string {
+	p := k.part(f)
+	if p == nil {
+		return "down"
+	}
+	g := k.gate
+	if g.heldNow(f) > 0 {
+		return "already-held"
+	}
+	p.mu.RLock()
+	stop := p.stopFollower
+	p.mu.RUnlock()
+	g.mu.Lock()
+	g.holdResp[f] = true
+	before := g.respParked[f]
+	g.mu.Unlock()
+	if !g.release(f, time.Second) {
+		g.mu.Lock()
+		g.holdResp[f] = false
+		g.mu.Unlock()
+		return "not-parked"
+	}
+	deadline := time.Now().Add(3 * time.Second)
+	got := false
+	for time.Now().Before(deadline) {
+		g.mu.Lock()
+		got = g.respParked[f] > before
+		g.mu.Unlock()
+		if got {
+			break
+		}
+		time.Sleep(200 * time.Microsecond)
+	}
+	g.mu.Lock()
+	g.holdResp[f] = false
+	g.mu.Unlock()
+	if !got {
+		// no response (the request timed out): the loop is back at its gate
+		k.settle()
+		return "no-response"
+	}
+	k.heldStop[f] = stop
+	k.settle()
+	return ""
+}
+
+// deliver lets the held response of replica f into its handler now.
+func (k *vKit) deliver(f string) string {
+	g := k.gate
+	if g.heldNow(f) == 0 {
+		return "not-held"
+	}
+	current := k.heldCurrent(f)
+	before := g.arrived(f)
+	var lg commitlog.CommitLog
+	newest := int64(-2)
+	if p := k.part(f); p != nil {
+		lg = p.log
+		newest = lg.NewestOffset()
+	}
+	select {
+	case g.respTokens[f] <- struct{}{}:
+	case <-time.After(time.Second):
+		return "not-held"
+	}
+	delete(k.heldStop, f)
+	if current {
+		// the loop goes on: the step is over when it is back at its gate
+		deadline := time.Now().Add(3 * time.Second)
+		for g.arrived(f) == before && time.Now().Before(deadline) {
+			time.Sleep(200 * time.Microsecond)
+		}
+		if g.arrived(f) == before {
+			return "no-return"
+		}
+	} else {
+		// a goroutine of a loop that was stopped meanwhile: it leaves after the handler, there is
+		// nothing to wait for but what the handler does to the log
+		deadline := time.Now().Add(120 * time.Millisecond)
+		for time.Now().Before(deadline) {
+			if lg != nil && lg.NewestOffset() != newest {
+				break
+			}
+			time.Sleep(500 * time.Microsecond)
+		}
+	}
+	k.settle()
+	return ""
+}
+
+// dropHeld: the process of replica r is gone: a response it had received dies with it (the held
+// goroutine runs on against the closed partition).
+func (k *vKit) dropHeld(r string) {
+	g := k.gate
+	for g.heldNow(r) > 0 {
+		select {
+		case g.respTokens[r] <- struct{}{}:
+		case <-time.After(time.Second):
+			return
+		}
+		time.Sleep(2 * time.Millisecond)
+	}
+	delete(k.heldStop, r)
 }
 
 func (k *vKit) upIDs() []string {
@@ -797,6 +942,7 @@ func (k *vKit) crash(r string) string {
 			return "close-error:" + err.Error()
 		}
 	}
+	k.dropHeld(r)
 	s.closeNATSConns()
 	delete(k.srv, r)
 	delete(k.pending, r)
@@ -875,6 +1021,7 @@ func (k *vKit) close() {
 		if p := k.part(id); p != nil {
 			p.Close()
 		}
+		k.dropHeld(id)
 		k.srv[id].closeNATSConns()
 	}
 	k.nc.Close()
@@ -972,6 +1119,8 @@ type vRepState struct {
 	Lag    []string                    `json:"lagging"`
 	// Gap: the offsets stored by the replica are not the consecutive run 0, 1, 2, ...
 	Gap map[string]bool `json:"gap"`
+	// Held: a goroutine of the replica sits inside the replication response handler, the response not looked at yet
+	Held map[string]bool `json:"held"`
 }
 
 func (k *vKit) state() vRepState {
@@ -1001,8 +1150,10 @@ func (k *vKit) state() vRepState {
 	}
 	st.Lag = []string{}
 	st.Gap = map[string]bool{}
+	st.Held = map[string]bool{}
 	for _, id := range k.ids {
 		st.Gap[id] = k.lastGap[id]
+		st.Held[id] = k.gate.heldNow(id) > 0
 	}
 	for _, id := range k.ids {
 		if len(k.pending[id]) > 0 {
@@ -1085,6 +1236,12 @@ func (k *vKit) step(id int, step map[string]interface{}) vRepEvent {
 	case "FetchLost":
 		args["f"] = vStr(step, "f")
 		res = k.fetchLost(vStr(step, "f"))
+	case "FetchHold":
+		args["f"] = vStr(step, "f")
+		res = k.fetchHold(vStr(step, "f"))
+	case "Deliver":
+		args["f"] = vStr(step, "f")
+		res = k.deliver(vStr(step, "f"))
 	case "LagExpire":
 		args["f"] = vStr(step, "f")
 	case "Shrink":
@@ -1126,7 +1283,7 @@ func (k *vKit) step(id int, step map[string]interface{}) vRepEvent {
 		args["f"] = f
 		leader := k.leader
 		n0, _ := vTickCount(leader, f)
-		deadline := time.Now().Add(time.Duration(4*k.lagMs+1000) * time.Millisecond)
+		deadline := time.Now().Add(time.Duration(4*k.lagMs+6000) * time.Millisecond)
 		var last vTick
 		n := n0
 		for n == n0 && time.Now().Before(deadline) {
